@@ -30,8 +30,6 @@ import (
 	"strings"
 	"sync/atomic"
 	"testing"
-	"os"
-	"time"
 
 	"verif/engine/enum"
 	"verif/engine/rep"
@@ -684,6 +682,28 @@ func (k *checker) clientInvalid(cfg config, w *world, x *cx, c rcase, class stri
 	}
 }
 
+// methodCheck: a well-formed range sent with another HTTP method is "another parameter combination".
+func (k *checker) methodCheck(cfg config, w *world) {
+	x := w.get()
+	defer w.put(x)
+	for _, m := range []string{http.MethodPost, http.MethodHead, http.MethodPut, http.MethodDelete} {
+		x.rec.take()
+		k.r.Eval(1)
+		q := url.Values{"start": {"0"}, "end": {"0"}}
+		var rsp fe.Resp
+		pan, msg, stack := enum.Catch(func() { rsp = x.f.Do(context.Background(), m, getEntriesPath, q, nil) })
+		calls := x.rec.take()
+		k.countGLBR(calls)
+		d := map[string]any{"config": cfg.String(), "tree_size": w.size, "method": m, "url": "/log" + getEntriesPath + "?" + q.Encode(), "library": fmt.Sprintf("HTTP %d %s", rsp.Status, short(rsp.Body)), "backend_calls_seen": showCalls(calls)}
+		switch {
+		case pan:
+			k.r.Violation("panic in get-entries handler", msg+"\n"+stack, d)
+		case len(calls) != 0 || rsp.Status < 400 || rsp.Status > 499:
+			k.r.Violation("get-entries with a method other than GET reaches the backend or is not answered 4xx", fmt.Sprintf("%s %s: HTTP %d, backend saw %s", cfg, m, rsp.Status, showCalls(calls)), d)
+		}
+	}
+}
+
 // ---------------------------------------------------------------------------
 // alphabets
 
@@ -899,7 +919,10 @@ func scripts(thorough bool) []script {
 			l.LeafValue = append(append([]byte{}, l.LeafValue...), 0, 1, 2)
 			l.ExtraData = pattern(70000, byte(i))
 		}),
-		garbage("leaf bytes 0x00..0xff", func(i int, l *trillian.LogLeaf) { l.LeafValue = pattern(256, 0)[:256]; l.ExtraData = []byte{0xff, 0x00, 0x80, byte(i)} }),
+		garbage("leaf bytes 0x00..0xff", func(i int, l *trillian.LogLeaf) {
+			l.LeafValue = pattern(256, 0)[:256]
+			l.ExtraData = []byte{0xff, 0x00, 0x80, byte(i)}
+		}),
 	)
 	bad := func(name string, f func(req *trillian.GetLeavesByRangeRequest, rsp *trillian.GetLeavesByRangeResponse) bool) script {
 		return script{name, func(req *trillian.GetLeavesByRangeRequest, rsp *trillian.GetLeavesByRangeResponse) ([]stored, bool) {
@@ -1019,7 +1042,6 @@ func (k *checker) hookPhase(cfg config, hw *world) {
 
 func TestCheck(t *testing.T) {
 	silenceKlog()
-	tStart := time.Now()
 	r := rep.New("C07", "exploration")
 	th := r.Thorough()
 	k := &checker{r: r}
@@ -1063,7 +1085,7 @@ func TestCheck(t *testing.T) {
 		"root sent or omitted, boundary timestamps; submitted through add-chain / add-pre-chain, integrated in batches) x (start, end) in B x B with "+
 		"B = {0,1,2, k*max-1, k*max, k*max+1 (k=1..3), 2^31-1, 2^31+1, 2^32-1, 2^32, 2^62, MaxInt64-2max(+1), MaxInt64-max-1..MaxInt64-max+2, MaxInt64-2..MaxInt64, -1, -max, MinInt64, MinInt64+1, size-1, size, size+1%s} "+
 		"plus every pair of [0, 3max+2]^2 for max <= %d, plus %d raw strings (missing, empty, x, 1e3, +1, ' 1', '1 ', 2^63, -2^63-1, 0x10, 1.0, 1_0, -0, 007, a non-ASCII digit, '1,2', 26 digits) for each parameter against each other and against well-formed partners; "+
-		"each valid request is repeated through client.LogClient.GetRawEntries and GetEntries over the in-process RoundTripper; per world every index (large worlds: boundary indices and every 97th) through get-entry-and-proof at tree_size index+1 and size; "+
+		"each valid request is repeated through client.LogClient.GetRawEntries and GetEntries over the in-process RoundTripper; a well-formed range with POST / HEAD / PUT / DELETE; per world every index (large worlds: boundary indices and every 97th) through get-entry-and-proof at tree_size index+1 and size; "+
 		"per configuration scripted backend replies (short by 1..n leaves, undecodable / empty / oversized bytes, surplus leaf, shifted / swapped / stale indices) on every in-tree range of a 5-leaf (thorough: 12-leaf) log. "+
 		"distinct_nontrivial = distinct (config, tree size, start, end) with 0 <= start <= end (a backend call is due), plus get-entry-and-proof probes and applied scripts",
 		maxes, map[bool]string{true: ", 2, max, 3max", false: ""}[th], nShapes, map[bool]string{true: " and +-1, +-2 around each, and the largest multiple of max below 2^63", false: ""}[th], squareMax, len(rawStrings)))
@@ -1123,7 +1145,6 @@ func TestCheck(t *testing.T) {
 		}
 	}
 
-	fmt.Fprintf(os.Stderr, "TIMING setup=%v\n", time.Since(tStart))
 	// ---- configurations, sequentially (the knobs are process-global)
 	defer func(m int64) { ctfe.MaxGetEntriesAllowed = m; flag.Set("align_getentries", "true") }(ctfe.MaxGetEntriesAllowed)
 	eapDone := map[int]bool{}
@@ -1141,9 +1162,7 @@ func TestCheck(t *testing.T) {
 				if m <= squareMax {
 					sq = 3*m + 2
 				}
-				t0 := time.Now()
 				cs := cases(m, size, sq, th)
-				t1 := time.Now()
 				for _, l := range w.logs {
 					l.ResetCalls()
 				}
@@ -1158,6 +1177,7 @@ func TestCheck(t *testing.T) {
 					r.Capped("deadline reached before all (config, tree size, start, end) cases were run")
 					capped = true
 				}
+				k.methodCheck(cfg, w)
 				// the shared reference log recorded the same number of range reads as the per-worker recorders
 				n := 0
 				for _, l := range w.logs {
@@ -1167,7 +1187,6 @@ func TestCheck(t *testing.T) {
 					r.Violation("harness: recorder mismatch", fmt.Sprintf("%s tree=%d: reflog recorded %d GetLeavesByRange, the per-worker recorders %d", cfg, size, n, k.glbrSeen.Load()), nil)
 				}
 				r.Add("requests", int64(len(cs)))
-				fmt.Fprintf(os.Stderr, "TIMING %s size=%d cases=%d gen=%v run=%v\n", cfg, size, len(cs), t1.Sub(t0), time.Since(t1))
 				if !eapDone[size] && !capped {
 					eapDone[size] = true
 					var idxs []int
@@ -1180,9 +1199,7 @@ func TestCheck(t *testing.T) {
 				}
 			}
 			if !capped {
-				t2 := time.Now()
 				k.hookPhase(cfg, hookWorld)
-				fmt.Fprintf(os.Stderr, "TIMING %s hook=%v\n", cfg, time.Since(t2))
 			}
 		}
 	}
